@@ -29,8 +29,10 @@ Fixpoint runF (st : state) (gs : list (list prim)) (refs : list (list nat)) (obs
   | _, _, _ => (false, st)
   end.
 
-Definition file_of (h : list prim) (o : nat) : option nat :=
-  match nth_error (objs (spec_run h)) o with Some ob => Some (o_file ob) | None => None end.
+Fixpoint opened_files (h : list prim) : list nat :=
+  match h with [] => [] | Open f :: t => f :: opened_files t | Close _ :: t => opened_files t end.
+(* the disk file object o was opened on: read off the history itself, independent of the model *)
+Definition file_of (h : list prim) (o : nat) : option nat := nth_error (opened_files h) o.
 
 Definition prim_is_close (o : nat) (e : prim) : bool := match e with Close o' => Nat.eqb o o' | _ => false end.
 
@@ -55,12 +57,10 @@ Definition same_set (a b : list nat) : bool := natlist_eqb (sort (nodup Nat.eq_d
 Definition op_region (o : op) : nat :=
   if isolated o then 0 else
   match o with
-  | EvalName _ | EvalView _ => 2
-  | Getvarpnc _ => 3
-  | SliceDim _ => 4
-  | GetTimesTflag _ _ _ => 5
-  | Val2idxBounds _ _ _ _ _ => 6
-  | Clean _ => 0
+  | EvalName _ | EvalView _ => 1
+  | Getvarpnc _ => 2
+  | SliceDim _ => 3
+  | Clean _ | Query _ => 0
   end.
 
 Definition checkF (c : case_t) : bool :=
@@ -81,7 +81,7 @@ Definition checkS (c : case_t) : bool :=
 
 Definition region (c : case_t) : nat :=
   match c with
-  | HCase gs _ _ _ => if safe (concat gs) then 0 else 1
+  | HCase _ _ _ _ => 0      (* C05_close_local is full strength: no known-defect region *)
   | ACase o _ _ _ => op_region o
   end.
 
